@@ -164,12 +164,22 @@ ROUND8 = {
  "C18": " Announce URLs with non-ASCII characters in path and query.",
  "C19": " Busy-manager cases: failure reports and the good reply pile up in the tracker queue and are worked off in one go.",
 }
+ROUND9 = {
+ "C01": " A storage fault that hits one connection only while another connection stores the same piece; a peer dialling in from the address of a connected peer (real accept path).",
+ "C03": " Sibling names that share a stem and look like scratch names; files named like one of the torrent's own piece files (known finding).",
+ "C10": " The peer's own interest flapping (Interested / NotInterested) in the middle of a piece.",
+ "C11": " Wire-level invariant in borrowed full-session scenarios (every Have / bitfield bit names a stored, verified piece); real-socket run: a peer dials in from the address of a connected peer.",
+ "C13": " A Have that makes the manager hand out a piece is judged as a pick; 12-piece histories with Have commands and departures; preset variant.",
+ "C18": " URLs with #fragment and look-alike parameter names; re-announces of a running session (left = bytes still missing).",
+ "C19": " Busy-manager cases with a second connection ending after the good reply was queued.",
+ "C20": " Messages of unknown kinds (BEP 10 extended, BEP 5 port) as signs of life; inactivity close while the manager's queue is full.",
+}
 
 def main():
     checks = []
     for pid in sorted(CHECKS):
         level, technique, engine, text, note, ref = CHECKS[pid]
-        text = text + ROUND3.get(pid, "") + ROUND4.get(pid, "") + ROUND5.get(pid, "") + ROUND5B.get(pid, "") + ROUND6.get(pid, "") + ROUND7.get(pid, "") + ROUND8.get(pid, "")
+        text = text + ROUND3.get(pid, "") + ROUND4.get(pid, "") + ROUND5.get(pid, "") + ROUND5B.get(pid, "") + ROUND6.get(pid, "") + ROUND7.get(pid, "") + ROUND8.get(pid, "") + ROUND9.get(pid, "")
         checks.append({
             "property_id": pid,
             "quick_cmd": "./check %s --tier quick" % pid,
